@@ -264,7 +264,7 @@ class Flow:
                 self.add(('R', f.qname), {NONE: None}, 'return')
         elif isinstance(s, ast.If):
             self.ev(f, s.test, env)
-            tenv, fenv = self._test_filters(s.test, env)
+            tenv, fenv = self._test_filters(s.test, env, f)
             self.block(f, s.body, tenv)
             self.block(f, s.orelse, fenv)
         elif isinstance(s, (ast.For,)):
@@ -312,9 +312,26 @@ class Flow:
         else:
             raise AnalysisError('flow: unsupported statement %s at %s' % (type(s).__name__, self.loc(f, s)))
 
-    def _test_filters(self, test, env):
+    def _pattern_of(self, f, call):
+        """the constant pattern of  re.fullmatch(P, x)  /  R.fullmatch(x) with R = re.compile(P) at module level -> (x text, P)"""
+        if not isinstance(call, ast.Call):
+            return None
+        fn = norm(call.func)
+        if fn == 're.fullmatch' and len(call.args) == 2 and isinstance(call.args[0], ast.Constant) and isinstance(call.args[0].value, str):
+            return norm(call.args[1]), call.args[0].value
+        if isinstance(call.func, ast.Attribute) and call.func.attr == 'fullmatch' and isinstance(call.func.value, ast.Name) and len(call.args) == 1 and f is not None:
+            r = self.repo.resolve_name(f, call.func.value.id) if isinstance(f, FuncInfo) else self.repo.module_binding(f, call.func.value.id)
+            if r and r[0] == 'var' and isinstance(r[2], ast.Call) and norm(r[2].func) == 're.compile' and r[2].args and \
+                    isinstance(r[2].args[0], ast.Constant) and isinstance(r[2].args[0].value, str) and len(r[2].args) == 1:
+                return norm(call.args[0]), r[2].args[0].value
+        return None
+
+    def _test_filters(self, test, env, f=None):
         tenv, fenv = dict(env), dict(env)
         for t in _conjuncts(test):
+            pat = self._pattern_of(f, t)
+            if pat is not None:
+                tenv[pat[0]] = ('re', pat[1])
             if isinstance(t, ast.Call) and is_name(t.func, 'isinstance') and len(t.args) == 2:
                 tenv[norm(t.args[0])] = ('cls', [x.id for x in ast.walk(t.args[1]) if isinstance(x, ast.Name)])
             if isinstance(t, ast.Compare) and len(t.ops) == 1 and isinstance(t.comparators[0], ast.Constant) and \
@@ -329,7 +346,7 @@ class Flow:
                     if len(_conjuncts(test)) == 1:
                         fenv[norm(t.left)] = ('eq', t.comparators[0].value)
         if isinstance(test, ast.UnaryOp) and isinstance(test.op, ast.Not):
-            a, b = self._test_filters(test.operand, env)
+            a, b = self._test_filters(test.operand, env, f)
             return b, a
         return tenv, fenv
 
